@@ -208,8 +208,9 @@ def run_case(case):
             scopes.extend(range(nw, nw + n2))
             # one at a time, twice as many as drawn: each ends before the next starts, so the operating system gets every chance to
             # hand a dead thread's identifier to a new one (which must not matter)
-            n2 *= 2
-            scopes.extend(range(nw + n2 // 2, nw + n2))
+            n2_drawn = n2
+            n2 = max(6, 2 * n2)        # (several chances: whether an identifier is recycled is the operating system's decision)
+            scopes.extend(range(nw + n2_drawn, nw + n2))
             for w in range(n2):
                 sim2 = TS.Sim({"mode": "explicit", "switches": []}, TRACE, model=case["model"], max_steps=20000)
                 cur_sim[0] = sim2
